@@ -5,7 +5,7 @@
 #   - demo.sh fails with the change and passes without it
 set -u
 ID=$1; NAME=$2
-WT=/tmp/mut-$ID; OUT=/tmp/mut-out/$ID
+PFX=${3:-mut}; WT=/tmp/$PFX-$ID; OUT=/tmp/$PFX-out/$ID
 export CARGO_NET_OFFLINE=true RUST_BACKTRACE=0
 cd "$WT" || exit 2
 git diff > /tmp/confirm-$ID.diff
